@@ -148,35 +148,48 @@ structure Acc where
   metas : List (String × MetaOut) := []     -- the *list* `node_prop_meta` (duplicates possible)
 deriving Repr
 
+/-- a property together with its metadata entry -/
+abbrev Triple := String × PropOut × MetaOut
+
+/-- `props[name] = prop; prop_meta.append(meta)` -/
+def Acc.push (a : Acc) (t : Triple) : Acc :=
+  { props := dictSet a.props t.1 t.2.1, metas := a.metas ++ [(t.1, t.2.2)] }
+
+def axisTriple (n : Nat) (name unit dtype : String) (values : Values) : Triple :=
+  (name, { dtype := npName dtype, len := n, varlength := false, missing := none, values := values },
+         { dtype := npName dtype, varlength := false, unit := some unit })
+
 /-- `_add_axis` + `node_prop_meta.append(meta)` -/
 def addAxis (n : Nat) (a : Acc × List AxisOut) (name type unit dtype : String) (values : Values) :
     Acc × List AxisOut :=
-  let p : PropOut := { dtype := npName dtype, len := n, varlength := false, missing := none, values := values }
-  ({ props := dictSet a.1.props name p,
-     metas := a.1.metas ++ [(name, { dtype := npName dtype, varlength := false, unit := some unit })] },
+  (a.1.push (axisTriple n name unit dtype values),
    a.2 ++ [{ name := name, type := type, unit := unit, hasMinMax := decide (n > 0) }])
 
-/-- one iteration of the `for prop_name, prop_value in extra_*_props.items()` loops (after the
-repair both loops append the metadata for generated **and** caller-supplied arrays) -/
-def extraStep (len : Nat) (a : Acc) (item : Option String × Req) : Outcome Acc :=
+/-- the body of the `for prop_name, prop_value in extra_*_props.items()` loops up to the insertion:
+validation and generation of one property (after the repair both loops append the metadata for
+generated **and** caller-supplied arrays) -/
+def stepOut (len : Nat) (item : Option String × Req) : Outcome Triple :=
   match item.1 with
   | none => .valueError                                  -- key is not a string
   | some k =>
     match item.2 with
     | .auto d =>
       if dtypeStrs.contains d then
-        let p : PropOut := { dtype := npName d, len := len, varlength := false, missing := none,
-                             values := autoValues k d len }
-        .ok { props := dictSet a.props k p,
-              metas := a.metas ++ [(k, { dtype := npName d, varlength := false, unit := none })] }
+        .ok (k, { dtype := npName d, len := len, varlength := false, missing := none, values := autoValues k d len },
+                { dtype := npName d, varlength := false, unit := none })
       else .valueError                                   -- dtype not supported
     | .arr d l tag =>
       if l = len then
-        let p : PropOut := { dtype := d, len := l, varlength := false, missing := none, values := .given tag }
-        .ok { props := dictSet a.props k p,
-              metas := a.metas ++ [(k, { dtype := d, varlength := false, unit := none })] }
+        .ok (k, { dtype := d, len := l, varlength := false, missing := none, values := .given tag },
+                { dtype := d, varlength := false, unit := none })
       else .valueError                                   -- array length mismatch
     | .bad => .valueError
+
+def extraStep (len : Nat) (a : Acc) (item : Option String × Req) : Outcome Acc :=
+  match stepOut len item with
+  | .ok t => .ok (a.push t)
+  | .valueError => .valueError
+  | .other n => .other n
 
 def extraLoop (len : Nat) : Acc → List (Option String × Req) → Outcome Acc
   | a, [] => .ok a
@@ -204,37 +217,62 @@ def castEdges (r : Except String (List (Int × Int))) : Outcome (List (Int × In
   | .ok es => .ok es
   | .error e => .other e
 
-/-- `create_dummy_in_mem_geff` -/
-def createDummyInMemGeff (p : Params) : Outcome Geff := do
+/-- the four `if include_*: meta = _add_axis(...)` blocks -/
+def axesAcc (p : Params) : Acc × List AxisOut :=
   let n := p.numNodes
   let a0 : Acc × List AxisOut := ({}, [])
   let a1 := if p.t then addAxis n a0 "t" "time" "second" p.timeDtype (.ints (tValues n)) else a0
   let a2 := if p.z then addAxis n a1 "z" "space" "nanometer" p.posDtype (.linspace "0.5" "0.1" n) else a1
   let a3 := if p.y then addAxis n a2 "y" "space" "nanometer" p.posDtype (.linspace "100.0" "500.0" n) else a2
-  let a4 := if p.x then addAxis n a3 "x" "space" "nanometer" p.posDtype (.linspace "1.0" "0.1" n) else a3
+  if p.x then addAxis n a3 "x" "space" "nanometer" p.posDtype (.linspace "1.0" "0.1" n) else a3
+
+def varLengthProp (n : Nat) : PropOut :=
+  { dtype := "object", len := n, varlength := true, missing := some (firstOnly n), values := .cubes n }
+
+def sparseProp (k : Nat) : PropOut :=
+  { dtype := "float64", len := k, varlength := false, missing := some (everyOther k),
+    values := .ints ((List.range k).map (fun (i : Nat) => (i : Int))) }
+
+def sparseMeta : MetaOut := { dtype := "float64", varlength := false, unit := none }
+
+def varLengthTriple (n : Nat) : Triple :=
+  ("var_length", varLengthProp n, { dtype := "uint64", varlength := true, unit := none })
+
+def sparseTriple (k : Nat) : Triple := ("sparse_prop", sparseProp k, sparseMeta)
+
+/-- `if include_varlength: …` (node side only) -/
+def withVarLength (vl : Bool) (n : Nat) (a : Acc) : Acc :=
+  if vl then a.push (varLengthTriple n) else a
+
+/-- `if include_missing: …` (one property of length `k` on this side) -/
+def withSparse (ms : Bool) (k : Nat) (a : Acc) : Acc :=
+  if ms then a.push (sparseTriple k) else a
+
+/-- the returned dict -/
+def assemble (p : Params) (edges : List (Int × Int)) (axes : List AxisOut) (nodeAcc edgeAcc : Acc) : Geff :=
+  { numNodes := p.numNodes, idDtype := npName p.idDtype, edges := edges, directed := p.directed,
+    axes := axes, nodeProps := nodeAcc.props, edgeProps := edgeAcc.props,
+    nodeMeta := metaDict nodeAcc.metas, edgeMeta := metaDict edgeAcc.metas }
+
+/-- `create_dummy_in_mem_geff` -/
+def createDummyInMemGeff (p : Params) : Outcome Geff :=
+  let n := p.numNodes
+  let ax := axesAcc p
   -- the edge loops: translated from the source (T9)
-  let edges ← castEdges (Gen.MockEdges.gen p.directed (n : Int) (p.numEdges : Int))
-  let e := edges.length
-  let nodeAcc ← extras n a4.1 p.extraNode
-  let edgeAcc ← extras e {} p.extraEdge
-  let nodeAcc := if p.vl then
-      { props := dictSet nodeAcc.props "var_length"
-          { dtype := "object", len := n, varlength := true, missing := some (firstOnly n), values := .cubes n },
-        metas := nodeAcc.metas ++ [("var_length", { dtype := "uint64", varlength := true, unit := none })] }
-    else nodeAcc
-  let sparse (k : Nat) : PropOut :=
-    { dtype := "float64", len := k, varlength := false, missing := some (everyOther k),
-      values := .ints ((List.range k).map (fun (i : Nat) => (i : Int))) }
-  let sm : MetaOut := { dtype := "float64", varlength := false, unit := none }
-  let nodeAcc := if p.ms then
-      { props := dictSet nodeAcc.props "sparse_prop" (sparse n), metas := nodeAcc.metas ++ [("sparse_prop", sm)] }
-    else nodeAcc
-  let edgeAcc := if p.ms then
-      { props := dictSet edgeAcc.props "sparse_prop" (sparse e), metas := edgeAcc.metas ++ [("sparse_prop", sm)] }
-    else edgeAcc
-  return { numNodes := n, idDtype := npName p.idDtype, edges := edges, directed := p.directed,
-           axes := a4.2, nodeProps := nodeAcc.props, edgeProps := edgeAcc.props,
-           nodeMeta := metaDict nodeAcc.metas, edgeMeta := metaDict edgeAcc.metas }
+  match castEdges (Gen.MockEdges.gen p.directed (n : Int) (p.numEdges : Int)) with
+  | .valueError => .valueError
+  | .other e => .other e
+  | .ok edges =>
+    match extras n ax.1 p.extraNode with
+    | .valueError => .valueError
+    | .other e => .other e
+    | .ok nodeAcc =>
+      match extras edges.length {} p.extraEdge with
+      | .valueError => .valueError
+      | .other e => .other e
+      | .ok edgeAcc =>
+        .ok (assemble p edges ax.2 (withSparse p.ms n (withVarLength p.vl n nodeAcc))
+                                   (withSparse p.ms edges.length edgeAcc))
 
 /-- what `write_arrays(store, **memory_geff)` is handed; the store *denotes* this value when the
 write path is faithful (property C01) -/
@@ -251,13 +289,18 @@ def writeArrays (emptyVlenWriteOk : Bool) (g : Geff) : Outcome Written :=
   else .ok ⟨g⟩
 
 /-- `create_mock_geff`: forwards **every** parameter, writes into a fresh `MemoryStore` -/
-def createMockGeff (emptyVlenWriteOk : Bool) (p : Params) : Outcome (Written × Geff) := do
-  let g ← createDummyInMemGeff
+def createMockGeff (emptyVlenWriteOk : Bool) (p : Params) : Outcome (Written × Geff) :=
+  match createDummyInMemGeff
     { idDtype := p.idDtype, timeDtype := p.timeDtype, posDtype := p.posDtype, directed := p.directed,
       numNodes := p.numNodes, numEdges := p.numEdges, extraNode := p.extraNode, extraEdge := p.extraEdge,
-      t := p.t, z := p.z, y := p.y, x := p.x, vl := p.vl, ms := p.ms }
-  let w ← writeArrays emptyVlenWriteOk g
-  return (w, g)
+      t := p.t, z := p.z, y := p.y, x := p.x, vl := p.vl, ms := p.ms } with
+  | .valueError => .valueError
+  | .other e => .other e
+  | .ok g =>
+    match writeArrays emptyVlenWriteOk g with
+    | .valueError => .valueError
+    | .other e => .other e
+    | .ok w => .ok (w, g)
 
 def simpleEdgeProps : Extra := .dict [(some "score", .auto "float64"), (some "color", .auto "int")]
 
